@@ -6,7 +6,7 @@ Utility functions for helping generate input problems.
 
 import random
 from dataclasses import dataclass
-from typing import Any, List, Optional, Set, Tuple, TypeVar, Union, cast
+from typing import Any, List, Optional, Tuple, TypeVar, Union, cast
 
 from .types import NumberType
 
@@ -187,22 +187,15 @@ def get_rand_vars(
     """Get a list of random variables, excluding the given list of hold-out variables"""
     if exclude_vars is None:
         exclude_vars = []
-    if num_vars > 25:
-        raise ValueError("out of range: there are only twenty-six variables")
-    rand_vars: Set[str] = set()
-    iters = 0
-    while len(rand_vars) < num_vars:
-        _rand = rand_var(common_variables)
-        if _rand not in exclude_vars:
-            rand_vars.add(_rand)
-        iters += 1
-        if iters > num_vars * 10:
-            raise ValueError(
-                f"Unable to fulfill request for {num_vars} random variables"
-            )
-    out = list(rand_vars)
-    random.shuffle(out)
-    return out
+    pool = globals()["common_variables"] if common_variables else variables
+    candidates = [v for v in pool if v not in exclude_vars]
+    if num_vars > len(candidates):
+        raise ValueError(
+            f"out of range: there are only {len(candidates)} variables to choose from"
+        )
+    # NOTE: draw without replacement, so that a request that uses (nearly) all of the
+    #       available letters cannot fail by bad luck
+    return random.sample(candidates, num_vars)
 
 
 def gen_binomial_times_binomial(
@@ -452,7 +445,7 @@ def split_in_two_random(value: int) -> Tuple[int, int]:
 
 
 def gen_combine_terms_in_place(
-    min_terms: int = 16, max_terms: int = 26, easy: bool = True, powers: bool = False
+    min_terms: int = 16, max_terms: int = 25, easy: bool = True, powers: bool = False
 ) -> Tuple[str, int]:
     """Generate a problem that puts one pair of like terms next to each other
     somewhere inside a large tree of unlike terms.
